@@ -71,6 +71,18 @@ pub fn forelse(id: u32, out: Out) -> impl Fn(i64) -> R + Send + 'static {
     move |e| { cb(id); match out { O(c) => Ok(mix(e, c)), E(c) => Err(mix(e, c)), P => panic!("user{}", id) } } }
 pub fn fmaperr(id: u32, out: Out) -> impl Fn(i64) -> i64 + Send + 'static {
     move |e| { cb(id); match out { O(c) | E(c) => mix(e, c), P => panic!("user{}", id) } } }
+static GATES: Mutex<Vec<(u32, std::sync::Arc<std::sync::Barrier>)>> = Mutex::new(Vec::new());
+/// all `n` sibling threads of a step must be alive at the same time: each waits here for the others
+pub fn fgate(id: u32, n: usize) -> impl Fn(&R) + Send + 'static {
+    move |_| {
+        let b = { let mut g = GATES.lock().unwrap_or_else(|e| e.into_inner());
+                  if let Some((_, b)) = g.iter().find(|(i, _)| *i == id) { b.clone() }
+                  else { let b = std::sync::Arc::new(std::sync::Barrier::new(n)); g.push((id, b.clone())); b } };
+        b.wait();
+    }
+}
+/// logs the name of the thread it runs on (nested spawn macros)
+pub fn tname(id: u32) -> i64 { cb(id); id as i64 }
 pub fn hdef(id: u32, out: Out) { log(format!("hd:{}", id)); if let P = out { panic!("user{}", id) } }
 pub fn hcall(id: u32, args: String, out: Out) -> i64 {
     log(format!("hc:{}:{}", id, args)); match out { O(c) | E(c) => c, P => panic!("user{}", id) } }
@@ -167,6 +179,8 @@ class Prog:
         fn = {"init": "init", "map": "fmap", "andThen": "fand", "then": "fthen", "inspect": "fins",
               "orElse": "forelse", "mapErr": "fmaperr"}[op.mode]
         call = "%s(%d, %s)" % (fn, op.cb + self.base if op.cb else 0, self.out_src(op.out))
+        if getattr(op, "gate", None):
+            call = "fgate(%d, %d)" % (op.gate[0] + self.base, op.gate[1])
         if self.is_async():
             call = self.async_operand(op, call)
         if op.block:
@@ -549,6 +563,65 @@ class Ids:
         return self.n
 
 
+def add_gates(p, ids):
+    """Every chain of a step with n>1 active branches first waits until all n sibling threads have arrived."""
+    depths = [p.depth(b) for b in range(len(p.branches))]
+    for b, br in enumerate(p.branches):
+        new_ops = []
+        k = -1
+        for op in br["ops"]:
+            new_ops.append(op)
+            if op.mode == "init" or op.deferred:
+                k += 1
+                n = sum(1 for d in depths if d > k)
+                if n > 1:
+                    g = Op("inspect", 0, ("ok", 0))
+                    g.gate = (900 + k, n)
+                    new_ops.append(g)
+        br["ops"] = new_ops
+    return p
+
+
+def nested_names_programs():
+    """Nested thread-spawning macros: thread names at nesting depth 2 and 3 (expected names computed here)."""
+    out = []
+    # (rust body, expected (cb id -> thread name))
+    body2 = "join_spawn! { tname(1), join_spawn! { tname(2), tname(3) ~-> |v| v + tname(4) } -> |t: (i64, i64)| t.0, tname(5) ~-> |v: i64| v + tname(6) }"
+    exp2 = {1: "main_join_0", 2: "main_join_1_join_0", 3: "main_join_1_join_1", 4: "main_join_1", 5: "main_join_2", 6: "main_join_2"}
+    # step 1 of the outer macro has one active branch (branch 2): it runs on the caller
+    exp2[6] = "main"
+    # inner step 1 has one active branch: runs on the inner caller = thread of outer branch 1
+    out.append(("n2", body2, exp2))
+    body3 = ("spawn! { tname(1), try_join_spawn! { Ok::<i64, i64>(tname(2)), Ok::<i64, i64>(spawn! { tname(3), tname(4) }.1) } "
+             "-> |r: Result<(i64, i64), i64>| r.unwrap().0 }")
+    exp3 = {1: "main_join_0", 2: "main_join_1_join_0", 3: "main_join_1_join_1_join_0", 4: "main_join_1_join_1_join_1"}
+    out.append(("n3", body3, exp3))
+    return out
+
+
+def run_nested_names(ctx):
+    progs = nested_names_programs()
+    fns = []
+    for pid, body, _ in progs:
+        fns.append("fn %s() -> String { let r = std::panic::catch_unwind(|| { let __res = %s; __res.show() });\n"
+                   "    match r { Ok(s) => format!(\"ok {}\", s), Err(e) => format!(\"panic {}\", panic_text(e)) } }\n" % (pid, body))
+    src = PRELUDE_SYNC + "".join(fns) + MAIN_SYNC % ", ".join('("%s", %s as fn() -> String)' % (pid, pid) for pid, _, _ in progs)
+    ok, out, log = build_and_run("k2nested", src)
+    if not ok:
+        ctx.broken.append(("nested spawn programs do not compile", log[-2000:]))
+        return
+    lines = dict(l.split("\t", 1) for l in out.splitlines() if "\t" in l)
+    for pid, body, exp in progs:
+        f = lines.get(pid, "MISSING\t").split("\t")
+        evs = parse_rust_events(f[1] if len(f) > 1 else "")
+        got = {int(t[3:]): tn for (t, tn, tid) in evs if t.startswith("cb:")}
+        ctx.evals += 1
+        if f[0].startswith("panic") or f[0] in ("BLOCKED", "MISSING") or got != exp:
+            ctx.out.violation({"program": body, "observed": lines.get(pid, "MISSING")[:800], "expected_thread_names": exp, "got": got,
+                               "what": "nested thread-spawning macros: thread names differ from <caller>_join_<branch index>"},
+                              found_input=True, signature=None)
+
+
 def gen_scaffold(rng, pid, kind, name=None, max_branches=4, max_depth=4, fail_rate=(1, 6), panic_rate=(0, 1),
                  block_rate=(1, 4), name_rate=(1, 3), handler_rate=(1, 2), profile=None):
     p = Prog(pid, kind, name or rng.pick(NAMES[kind]))
@@ -857,6 +930,12 @@ REGRESSION_CHAINS = [
     ("!true ..then(|| 1i64)", "(!true).then(|| 1i64)", "Option<i64>"),
     ("-7i64 ~-> |v: i64| v + 1 ~..abs()", "((|v: i64| v + 1)(-7i64)).abs()", "i64"),
     ("(1i64..4) |> |v| v * 2 =>[] Vec<i64>", "(1i64..4).map(|v| v * 2).collect::<Vec<i64>>()", "Vec<i64>"),
+    # a deferred wrapper closes the wrappers still open and applies to the outer value, in the next step
+    ("Err::<Result<i64, i64>, i64>(3) => >>> !> |e: i64| e + 1 ~!> >>> ..wrapping_mul(10)",
+     "Err::<Result<i64, i64>, i64>(3).and_then(|v| v.map_err(|e: i64| e + 1)).map_err(|e| e.wrapping_mul(10))", "Result<i64, i64>"),
+    ("Ok::<Result<i64, i64>, i64>(Err(4)) => >>> !> |e: i64| e + 1 ~!> >>> ..wrapping_mul(10)",
+     "Ok::<Result<i64, i64>, i64>(Err(4)).and_then(|v| v.map_err(|e: i64| e + 1)).map_err(|e| e.wrapping_mul(10))", "Result<i64, i64>"),
+    ("Some(2i64) => >>> ..checked_add(1) ~?> >>> ..is_positive() <<< |> |v| v * 3", "Some(2i64).and_then(|v| v.checked_add(1)).filter(|v| v.is_positive()).map(|v| v * 3)", "_"),
 ]
 
 
